@@ -38,10 +38,20 @@ impl FirstSetMapBuilder<'_> {
     }
 
     fn get_nonterminal_names(&self) -> Oset<&str> {
-        self.rules
+        // An enum without variants has no rules,
+        // but other rules can still refer to it.
+        // So, we must also collect the referenced nonterminals.
+        let rule_owners = self
+            .rules
             .iter()
-            .map(|rule| rule.constructor_name.type_name())
-            .collect()
+            .map(|rule| rule.constructor_name.type_name());
+        let referenced = self.rules.iter().flat_map(|rule| {
+            (0..rule.fieldset.len()).filter_map(|i| match rule.fieldset.get_symbol_ident(i) {
+                IdentOrTerminalIdent::Ident(ident) => Some(ident.name.as_str()),
+                IdentOrTerminalIdent::Terminal(_) => None,
+            })
+        });
+        rule_owners.chain(referenced).collect()
     }
 
     fn expand(&self, out: &mut HashMap<String, FirstSet>) -> DidChange {
